@@ -414,7 +414,12 @@ def check_eof_source(ctx, led, rule="C17.eof.source"):
     from .rules_access import get_effects
 
     E = get_effects(ctx)
-    reach = E.reachable([f.qualname], loose_methods=False)
+    reach = set(E.reachable([f.qualname], loose_methods=False))
+    # methods of helper classes defined next to the builder are reached through local instances
+    # (question.ask()): follow calls by method name, but only into the builder's own module
+    for q in E.reachable([f.qualname], loose_methods=True):
+        if E.by_qual[q].module is m:
+            reach.add(q)
     n_reads = 0
     for q in sorted(reach):
         fn = E.by_qual[q]
